@@ -134,10 +134,10 @@ PROPS = {
         'not_covered': ['unbound-identifier detection on every desugaring route, inline-recursion guard (visited_inlines in replace_inline_body), toposort deadlock / duplicate handling: bounded stand-in only (E3: 8 ill-scoped programs with repaired twins); toposort and the inliner are generic / closure / HashSet code outside Verus, and a Kani harness over HashSet does not finish here', 'termination of the compiler on all ill-scoped inputs'],
     },
     'C12': {
-        'units': ['cldb', 'clvmleaves', 'stepper'],
+        'units': ['cldb', 'clvmleaves', 'stepper', 'convert'],
         'e3_always': ['cldb'],
         'e3': ['cldb', 'choose_path'],
-        'decided': 'what the debugger presents is the value it computed: improve_presentation and humanize (applied to every shown value and to the final result) return the same CLVM value, only spelled differently (R6 for the pointer-sharing shortcut); plus, for the machine the debugger steps (C06, unit stepper): every run_step transition preserves the value the machine state denotes under the consensus evaluation spec, so the final value the debugger reports is the consensus result (operators given as numbers, current integer mode); and the stepping-evaluator leaves every row is produced from (path lookup, truthiness, atom_value)',
-        'not_covered': ['CldbRun::step row / ended / final bookkeeping and that the run ends with the consensus result: bounded stand-in only (E3: enumerated programs x 3 environments: final value, failure iff consensus fails, consecutive rows, and every (operator, arguments, value) row re-evaluated with the consensus evaluator; open finding F19: rows of the primitive if)', 'cldb_hierarchy', 'hex-supplied programs (hex_to_modern_sexp_inner)'],
+        'decided': 'a program supplied as hex (cldb -x) is the same program: hex_to_modern_sexp_inner rebuilds a located value that denotes exactly the deserialised CLVM node (unit convert; which location each node gets is a symbol-table lookup cut out as not entering the value); what the debugger presents is the value it computed: improve_presentation and humanize (applied to every shown value and to the final result) return the same CLVM value, only spelled differently (R6 for the pointer-sharing shortcut); plus, for the machine the debugger steps (C06, unit stepper): every run_step transition preserves the value the machine state denotes under the consensus evaluation spec, so the final value the debugger reports is the consensus result (operators given as numbers, current integer mode); and the stepping-evaluator leaves every row is produced from (path lookup, truthiness, atom_value)',
+        'not_covered': ['CldbRun::step row / ended / final bookkeeping and that the run ends with the consensus result: bounded stand-in only (E3: enumerated programs x 3 environments: final value, failure iff consensus fails, consecutive rows, and every (operator, arguments, value) row re-evaluated with the consensus evaluator; open finding F19: rows of the primitive if)', 'cldb_hierarchy', 'the deserialiser in front of hex_to_modern_sexp_inner (sexp_from_stream as a whole, see C08)'],
     },
 }
